@@ -22,6 +22,9 @@ CLAIMED = {
  "C10": ("CFG summary of OptionalColumn.Read/ReadOr composed with E4 decision tables of the enum decoders, compared against the GTFS default table; E7 flag-directed phi resolution for the arrival/departure fill-in; dominance rule for the inheritance pass",
          "Decides for every default-bearing column and both ways of omitting a value (column absent, cell blank) that the field takes the GTFS default; that under each validity combination the stored arrival/departure comes from a valid side; and that the inheritance option's stores are guarded and touch only WheelchairBoarding. Decided from the code for all rows at once; numeric parsing itself is not covered.",
          "Oracle table transcribed from the GTFS reference (DESIGN Appendix A.2); trusts that rows flow through the decoders found (C01 covers bindings)."),
+ "C05": ("E1 forward guard-fact dataflow on go/ssa with interprocedural summaries (nil), E2 goal-directed bounds prover, CFG loop classification (G4), call-graph SCCs (G5), csv typestate contract, proto2/extension/regexp lemmas",
+         "For every module function reachable from the entry points the property names, every dereference, interface invoke, index/slice expression, integer division, plain type assertion, panic and loop is an obligation that is proved on all paths or fails the check; one invariant-based slice bound is a reviewed exception (listed in the evidence, not covered). This is a sound-by-construction static argument over the module's code modulo the stated library lemmas; it is not a proof about the libraries.",
+         "Entry contracts (non-nil options/receivers/hash); proto.Unmarshal guarantees required fields and non-nil repeated elements; HasExtension lemma; library results non-nil when err == nil; encoding/csv equal field counts; finite inputs for the driver loops. Field-based alias model for kills."),
 }
 REASON_TODO = "check under construction in this session (static rule set designed in DESIGN.md section 3, not yet implemented); not claimed until it runs clean on the unchanged tree"
 NOT_APPLICABLE = {}
